@@ -1,7 +1,7 @@
 #!/bin/bash
 # re-evaluates every kept seeded change against the current checks (sensitivity regression); ~30-60 s each
 cd /verif
-i=0; for d in seeded/*/; do i=$((i+1)); [ $(( i % ${NSHARDS:-1} )) -ne ${SHARD:-0} ] && continue; id=$(basename $d); prop=${id%%-*}; extra=""; [ "$prop" = "C12" ] && extra="--rust"
+i=0; for d in seeded/*/; do [[ -n "$FILTER" && ! $(basename $d) =~ $FILTER ]] && continue; i=$((i+1)); [ $(( i % ${NSHARDS:-1} )) -ne ${SHARD:-0} ] && continue; id=$(basename $d); prop=${id%%-*}; extra=""; [ "$prop" = "C12" ] && extra="--rust"
   props=$(python3 -c "import json;print(','.join(json.load(open('$d/meta.json')).get('verified_here',{}).get('checks',{}).keys()) or '$prop')")
   rm -rf /tmp/seedsrc-$id; mkdir -p /tmp/seedsrc-$id; cp $d/patch.diff $d/demo.py $d/meta.json /tmp/seedsrc-$id/
   python3 - <<P
